@@ -46,7 +46,7 @@ def cases(draw, tier):
     # benign re-decorations (the same penalty / constraints / ranges installed again, Finalize) before given iterations,
     # made in the uninterrupted run and in the checkpointed one alike; mostly around the checkpoint
     if draw(st.integers(0, 2)) == 0:
-        hows = ['penalty', 'constraints', 'finalize'] + (['ranges', 'ranges'] if cfg.get('bounds') else [])
+        hows = ['penalty', 'constraints', 'finalize', 'penalty2'] + (['ranges', 'ranges'] if cfg.get('bounds') else [])
         cfg['reconf'] = [[draw(st.sampled_from([k, k, max(1, k - 1), k + 1, k + 2])), draw(st.sampled_from(hows))]
                          for _ in range(draw(st.integers(1, 2)))]
     cfg.update(path=path, savefreq=n, k=k, m=m,
@@ -103,6 +103,9 @@ def _reconf(case, run, solver, step_index):
         n += 1
         if how == 'penalty':
             solver.SetPenalty(run.pen)
+        elif how == 'penalty2':
+            # not benign: another penalty from here on (in both runs; a restart file written later must carry it)
+            solver.SetPenalty(lab.make_penalty(dict(kind='plain', i=0, c=-0.5, k=3.0)))
         elif how == 'constraints':
             solver.SetConstraints(run.con)
         elif how == 'finalize':
